@@ -639,7 +639,7 @@ fn count_finals(bytes: &[u8]) -> usize {
     crate::httpmodel::parse_responses(bytes, &|_| false)
         .msgs
         .iter()
-        .filter(|m| m.complete && !(100..200).contains(&m.status))
+        .filter(|m| m.complete && (m.status == 101 || !(100..200).contains(&m.status)))
         .count()
 }
 
@@ -889,6 +889,9 @@ fn driver(sc: Scenario, sh: Arc<Shared>) {
         }));
     }
     for (i, c) in sc.conns.iter().enumerate() {
+        if c.disabled {
+            continue;
+        }
         let (a2, sh2, c2) = (addr.clone(), sh.clone(), c.clone());
         simrt::thread::spawn_named("client", move || client_thread(a2, sh2, i, c2));
     }
@@ -902,7 +905,7 @@ fn driver(sc: Scenario, sh: Arc<Shared>) {
             None => return,
         };
         // release receivers that are still inside a receive call
-        for _round in 0..3 {
+        for _round in 0..24 {
             let alive = rx_handles.iter().filter(|h| !h.is_finished()).count();
             if alive == 0 {
                 break;
@@ -910,7 +913,7 @@ fn driver(sc: Scenario, sh: Arc<Shared>) {
             for _ in 0..alive {
                 server.unblock();
             }
-            simrt::settle();
+            simrt::quiesce();
         }
         let fin: Vec<bool> = rx_handles.iter().map(|h| h.is_finished()).collect();
         let all = fin.iter().all(|f| *f);
